@@ -36,16 +36,26 @@ pub struct GcEngine {
     /// no quarantine, no audit: the sanitizer is the oracle (ASan / memcheck / Miri builds)
     pub sanitizer_mode: bool,
     pub max_singles: usize,
+    /// where the programs come from: "mixed" (default), "stdlib" (the C09 generator), "host" (host calls with temporaries)
+    pub source: String,
     opnames: Vec<String>,
 }
 
 impl GcEngine {
-    pub fn new(sanitizer_mode: bool, max_singles: usize) -> Self {
+    /// the property on whose behalf the engine runs (the library and host-call workloads belong to C09 / C18)
+    fn pid(&self) -> &'static str {
+        match self.source.as_str() {
+            "stdlib" => "C09:gc",
+            "host" => "C18:gc",
+            _ => "C02",
+        }
+    }
+    pub fn new(sanitizer_mode: bool, max_singles: usize, source: &str) -> Self {
         let mut opnames = vec![String::new(); 256];
         for (op, name, _) in verif_instruction_table() {
             opnames[op as usize] = name;
         }
-        GcEngine { sanitizer_mode, max_singles, opnames }
+        GcEngine { sanitizer_mode, max_singles, source: source.to_string(), opnames }
     }
 }
 
@@ -147,11 +157,28 @@ impl Engine for GcEngine {
     fn name(&self) -> &'static str {
         "gc"
     }
+    fn describe(&self, case: &Self::Case) -> serde_json::Value {
+        let mut v = serde_json::to_value(case).unwrap_or(serde_json::Value::Null);
+        if let Some(o) = v.as_object_mut() {
+            o.insert("module".into(), serde_json::Value::String(crate::pp::module(&case.module, "")));
+        }
+        v
+    }
 
     fn gen(&mut self, rng: &mut Prng, _tier: Tier) -> Case {
         let inputs = crate::e_prog::gen_inputs(rng);
         let schedule_seed = rng.next_u64();
-        let (module, scenario) = match rng.below(10) {
+        let pick = match self.source.as_str() {
+            "stdlib" => 100,
+            "host" => 101,
+            _ => rng.below(11),
+        };
+        let (module, scenario) = match pick {
+            100 => {
+                let (m, s) = crate::e_stdlib::gen_std_program(rng);
+                (m, format!("stdlib:{s}"))
+            }
+            101 | 10 => crate::gen_closure::gen_host_gc_scenario(rng),
             0 => crate::gen_closure::gen_closure_scenario(rng),
             1 | 4 | 5 => crate::gen_closure::gen_gc_scenario(rng),
             2 | 3 => {
@@ -233,7 +260,7 @@ impl Engine for GcEngine {
             if let Some((f, op)) = r.audit_failure {
                 let during = if op == 255 { "end-of-run".to_string() } else { self.opnames.get(op as usize).cloned().unwrap_or_default() };
                 return Verdict::violation(
-                    format!("C02:audit:{}:{}:during={}", f.invariant, f.holder, during),
+                    format!("{}:audit:{}:{}:during={}", self.pid(), f.invariant, f.holder, during),
                     format!("schedule {s:?}: after a collection during {during}: {} [run result {}, reference {}]", f.detail, r.outcome.result, reference.outcome.result),
                 );
             }
@@ -243,7 +270,7 @@ impl Engine for GcEngine {
                 continue;
             }
             if let Some((what, detail)) = outcomes_differ(&r.outcome, &reference.outcome) {
-                return Verdict::violation(format!("C02:outcome-differs:{what}"), format!("schedule {s:?}: {detail} (reference = run without collections)"));
+                return Verdict::violation(format!("{}:outcome-differs:{what}", self.pid()), format!("schedule {s:?}: {detail} (reference = run without collections)"));
             }
         }
         if a >= 5 {
